@@ -64,6 +64,8 @@ const (
 	vC17CatchUpBound = 30 * time.Minute
 	vC17SlackBase    = 2 * time.Minute
 	vC17BatchCap     = 5 * time.Minute // measured batch time never widens the slack by more
+	vC17DeadFailLat   = 5 * time.Second        // an unreachable recipient fails after a dial timeout
+	vC17OutageFailLat = 200 * time.Millisecond // lookups and RPCs fail quickly while the network is down
 	vC17PoolPeers    = 12000
 	vC17PoolKeys     = 6000
 )
@@ -321,6 +323,9 @@ func (s *vC17Sim) GetClosestPeers(ctx context.Context, k string) ([]peer.ID, err
 		time.Sleep(d)
 	}
 	if s.outage.Load() {
+		if !s.closing.Load() {
+			time.Sleep(vC17OutageFailLat)
+		}
 		return nil, errors.New("vC17 sim: network unreachable")
 	}
 	t := sha256.Sum256([]byte(k))
@@ -348,6 +353,15 @@ func (s *vC17Sim) SendMessage(ctx context.Context, p peer.ID, m *pb.Message) err
 	pi, known := s.pool.peerIdx[string(p)]
 	if d := s.lat(time.Duration(s.sendLat.Load()), key, pi); d > 0 {
 		time.Sleep(d)
+	}
+	// an unreachable recipient costs time (dial timeout): failures are never instantaneous, else the
+	// provider's immediate retry of a failed region would spin without virtual time advancing
+	if !s.closing.Load() {
+		if s.outage.Load() {
+			time.Sleep(vC17OutageFailLat)
+		} else if known && s.dead(pi) {
+			time.Sleep(vC17DeadFailLat)
+		}
 	}
 	if err := ctx.Err(); err != nil {
 		return err
@@ -920,7 +934,9 @@ func vC17RandParams(c *vh.Case, minN, maxN, maxKeys int) vC17Params {
 	p.N = vC17LogUniform(c, minN, maxN)
 	p.nKeys = vC17LogUniform(c, 1, maxKeys)
 	p.r = []int{1, 3, 5, 20}[c.R.Intn(4)]
-	if c.R.Intn(3) == 0 {
+	if c.R.Intn(3) == 0 && p.r >= 5 {
+		// r >= 5 keeps the share of failing recipients per provided region below the 80 % at which the
+		// provider (by design) declares the whole region failed
 		p.deadPct = 30
 	}
 	p.clusteredSwarm = c.R.Intn(4) == 0
